@@ -5,6 +5,7 @@ import subprocess
 
 from common import PY, REPO
 import proc as P
+import argvlib
 
 LEVEL_TEXT = ("Lean theorems (Props/C19.lean) over the generated CLI description: every documented package and every declared console "
               "script resolves, no tool allows abbreviations, archivers have the required exclusive action group; extract of the models "
@@ -63,6 +64,7 @@ def fresh_world(ctx, tool):
 
 
 def run(ctx, res):
+    argvlib.argv_stream(ctx, res)
     res.rule = ("all tools x {python -m, declared console script} x {--help, no action, conflicting actions, unknown option, "
                 "abbreviated option, wrong extension}; archivers x {create, add, list, extract} x {with, without --into} x {first, "
                 "repeated extraction}; every configuration is run once (exhaustive), non-trivial, distinct by configuration")
